@@ -198,6 +198,21 @@ CLAIMS = {
                 'with a reason (rules/C14.py:EXEMPT).',
         'design': 'DESIGN.md section 3, C14',
     },
+    'C16': {
+        'level': 'proof',
+        'technique': 'static analysis: compile-time witnesses (static assertions over the real macro token text, one '
+                     'per byte value / boundary code point, batched in one C and one C++14 unit), guard-existence and '
+                     'verdict-overwrite typestate, NUL-before-advance typestate, who-calls-the-implementation scans',
+        'text': 'Proves (by the compiler, ~1 560 obligations) that the four character-class macros, UTF8_COMPUTE, '
+                'UTF8_LENGTH and UNICODE_VALID equal the specification for every byte / boundary code point; decides '
+                'that length, emptiness and depth guards exist, that a non-VALID signature verdict is never '
+                'overwritten, that the UTF-8 scanner tests NUL before every advance, and that every public entry '
+                'point hands the whole string to the one implementation.',
+        'note': NOT_DECIDED_COMMON + 'The proof level applies to the finite macro obligations only. Not decided: that '
+                'the scanning loops implement the grammars for all strings (language equivalence); signature bracket '
+                'nesting. Trusted: clang constant evaluation, the transcribed specification classes.',
+        'design': 'DESIGN.md section 3, C16',
+    },
 }
 
 NOT_APPLICABLE = {
